@@ -447,3 +447,23 @@ pub fn serve() -> i32 {
     let _ = out.flush();
     0
 }
+
+/// Fault point for crash-history checks: when `LAZE_VERIF_FAULT` names this point the
+/// process is killed on the spot (no destructors, no buffered data flushed); when
+/// `LAZE_VERIF_PAUSE` is `<point>:<path>`, `<path>.reached` is created and the process
+/// waits for `<path>.go` to appear before it continues.
+pub fn fault(point: &str) {
+    if std::env::var("LAZE_VERIF_FAULT").map_or(false, |p| p == point) {
+        std::process::abort();
+    }
+    if let Ok(spec) = std::env::var("LAZE_VERIF_PAUSE") {
+        if let Some((p, path)) = spec.split_once(':') {
+            if p == point {
+                let _ = std::fs::write(format!("{path}.reached"), b"");
+                while !std::path::Path::new(&format!("{path}.go")).exists() {
+                    std::thread::sleep(std::time::Duration::from_millis(5));
+                }
+            }
+        }
+    }
+}
